@@ -51,6 +51,8 @@ pub struct Cx<'g> {
     tmp: usize,
     pub self_dirty: bool,
     mut_methods: Vec<String>,
+    /// `&mut` parameters of semantic-model types (returned with the result)
+    pub mut_params: Vec<String>,
 }
 
 impl<'g> Cx<'g> {
@@ -76,6 +78,7 @@ impl<'g> Cx<'g> {
             tmp: 0,
             self_dirty: false,
             mut_methods,
+            mut_params: Vec::new(),
         }
     }
 
@@ -189,10 +192,18 @@ impl<'g> Cx<'g> {
 
     /// payload of a normal / early return: `v` or `(self, v)`
     fn payload(&self, v: &str) -> String {
+        let mut comps: Vec<String> = Vec::new();
         if self.self_mode == SelfMode::Mut {
-            format!("(self, {})", v)
-        } else {
+            comps.push("self".into());
+        }
+        for p in &self.mut_params {
+            comps.push(lean_ident(p));
+        }
+        if comps.is_empty() {
             v.to_string()
+        } else {
+            comps.push(v.to_string());
+            format!("({})", comps.join(", "))
         }
     }
 
@@ -262,8 +273,8 @@ impl<'g> Cx<'g> {
     }
 
     fn result_tail_call(&mut self, e: &syn::Expr, stmts: &mut Vec<Stmt>) -> R<Doc> {
-        if self.self_mode == SelfMode::Mut {
-            return self.bail(e.span(), "tail call of a `Result` fn from a `&mut self` method is not supported");
+        if self.self_mode == SelfMode::Mut || !self.mut_params.is_empty() {
+            return self.bail(e.span(), "tail call of a `Result` fn from a fn with `&mut` state is not supported");
         }
         let (term, info) = self.call_term(e, stmts)?;
         match &info.ret {
@@ -624,12 +635,14 @@ impl<'g> Cx<'g> {
         let (var, var_span) = match &*f.pat {
             syn::Pat::Ident(pi) if pi.subpat.is_none() && pi.by_ref.is_none() => (pi.ident.to_string(), pi.span()),
             syn::Pat::Wild(w) => ("_".to_string(), w.span()),
+            syn::Pat::Tuple(t) => ("(tuple)".to_string(), t.span()),
             other => return self.bail(other.span(), "unsupported loop pattern"),
         };
-        if var != "_" {
+        if var != "_" && var != "(tuple)" {
             self.check_local_name(&var, var_span)?;
         }
-        let bound: Vec<String> = if var == "_" { vec![] } else { vec![var.clone()] };
+        let mut bound: Vec<String> = Vec::new();
+        super::analysis::pat_idents(&f.pat, &mut bound);
         let m = self.assigned_in_block(&f.body, &bound);
         struct HasBreak(bool);
         impl<'ast> Visit<'ast> for HasBreak {
@@ -658,6 +671,9 @@ impl<'g> Cx<'g> {
                 };
                 let (lo, lt) = self.expr(lo_e, None, stmts)?;
                 let (hi, ht) = self.expr(hi_e, if matches!(lt, Ty::Int(_)) { Some(&lt) } else { None }, stmts)?;
+                if var == "(tuple)" {
+                    return self.bail(var_span, "tuple pattern over an integer range");
+                }
                 let vt = match (&lt, &ht) {
                     (Ty::Int(w), _) | (_, Ty::Int(w)) => Ty::Int(*w),
                     (Ty::IntAny, Ty::IntAny) => Ty::IntAny,
@@ -685,10 +701,19 @@ impl<'g> Cx<'g> {
                     Ty::List(e, _) => *e,
                     _ => return self.bail(other.span(), "unsupported `for` iterator (ranges and lists only)"),
                 };
-                let binds = if var == "_" { vec![] } else { vec![(var.clone(), et)] };
+                let (lv, binds) = if var == "(tuple)" {
+                    let (p, b) = self.pat(&f.pat, &et)?;
+                    for (n, _) in &b {
+                        self.check_local_name(n, var_span)?;
+                    }
+                    (p, b)
+                } else if var == "_" {
+                    ("_".to_string(), vec![])
+                } else {
+                    (lean_ident(&var), vec![(var.clone(), et)])
+                };
                 let (body, _, _) = self.block(&f.body, &Tail::Unit(m.clone()), &binds)?;
                 self.note_dirty(&m);
-                let lv = if var == "_" { "_".to_string() } else { lean_ident(&var) };
                 stmts.push(Stmt::Bind(
                     Self::tuple_pat(&m),
                     Doc::Lam(format!("RustSem.forEach {} {}", l, init), format!("fun {} {}", lv, lam_pat), Box::new(body)),
@@ -887,6 +912,7 @@ impl<'g> Cx<'g> {
                 format!("RustSem.extend_from_slice {} {}", cur, x)
             }
             ("clear", 0) => "[]".to_string(),
+            ("reverse", 0) => format!("List.reverse {}", cur),
             ("truncate", 1) => {
                 let (n, _) = self.expr(args[0], Some(&Ty::usize()), stmts)?;
                 format!("List.take {} {}", n, cur)
